@@ -81,6 +81,12 @@ type Client struct {
 	pending   map[tag]*response
 	pendingMu sync.Mutex
 
+	// broken is the connection error that ended this client (guarded by
+	// pendingMu). Once the receiver has reported a ConnError the stream
+	// can no longer be trusted (it may be in the middle of a frame): no
+	// new call is registered, every later call fails with this error.
+	broken error
+
 	// sendMu is the lock for sending a request.
 	sendMu sync.Mutex
 
@@ -256,12 +262,21 @@ func (c *Client) handleOne() {
 		// No tag was extracted (probably a conn error).
 		//
 		// Likely catastrophic. Notify all waiters and clear pending.
+		var connErr ConnError
+		fatal := errors.As(err, &connErr)
 		c.pendingMu.Lock()
+		if fatal && c.broken == nil {
+			c.broken = err
+		}
 		for _, resp := range c.pending {
 			resp.done <- err
 		}
 		c.pending = make(map[tag]*response)
 		c.pendingMu.Unlock()
+		if fatal {
+			// Nobody will read this connection again; let the peer notice.
+			c.conn.Close()
+		}
 	} else {
 		// Process the tag.
 		//
@@ -330,6 +345,12 @@ func (c *Client) sendRecv(tm message, rm message) error {
 	}()
 	resp.r = rm
 	c.pendingMu.Lock()
+	if c.broken != nil {
+		// The receiver gave this connection up: do not wait on it.
+		err := c.broken
+		c.pendingMu.Unlock()
+		return fmt.Errorf("connection broken: %w", err)
+	}
 	c.pending[tag(t)] = resp
 	c.pendingMu.Unlock()
 
